@@ -4,7 +4,7 @@
 #define VERIF_BATON_H
 #include <stdbool.h>
 #include <stdint.h>
-#define BATON_MAX 32
+#define BATON_MAX 96
 void baton_begin(uint64_t sched_seed, int switch_pct); /* activate: pthread_create/join are now managed */
 void baton_end(void);                                  /* deactivate (all managed threads must be joined) */
 bool baton_active(void);
